@@ -777,9 +777,27 @@ func (c *TagBoundCase) ID() string { return "tag-bound: " + c.Src }
 func (c *TagBoundCase) Exec(t *eng.T) {
 	t.Nontrivial()
 	one, two := 1, uint8(2)
-	ctx := pongo2.Context{"x": map[string]any{"v": "X"}, "y": map[string]any{"v": "Y"}, "z": map[string]any{"v": "Z"}, "l": []string{"l0", "l1", "l2"}, "pk": &one, "pk8": &two, "arr": [3]int{10, 11, 12}, "s": "héllo"}
+	ctx := pongo2.Context{"x": map[string]any{"v": "X"}, "y": map[string]any{"v": "Y"}, "z": map[string]any{"v": "Z"}, "l": []string{"l0", "l1", "l2"}, "pk": &one, "pk8": &two, "arr": [3]int{10, 11, 12}, "s": "héllo",
+		// typed nil values handed to parameters of exactly their type
+		"np": (*Leaf)(nil), "lp": &Leaf{Name: "L"}, "nm": map[string]int(nil), "ns": []string(nil),
+		"fnil": func(p *Leaf) string {
+			if p == nil {
+				return "nil-leaf"
+			}
+			return p.Name
+		},
+		"fmapn": func(m map[string]int) int { return len(m) }, "fsln": func(l []string) int { return len(l) },
+		"fany": func(a any) string { return fmt.Sprint(a == nil) },
+		"fvar": func(ps ...*Leaf) int { return len(ps) },
+		"add2": func(a, b int) int { return a + b }, "one": func(a int) int { return a }}
 	out := px.Render(nil, c.Src, ctx)
 	t.Outcome(out.String())
+	if c.Want == "ERROR" {
+		if !out.Failed() || out.Panic != "" {
+			t.Fail("resolve:no-error", "%s renders %s; it must be a compile or execution error (wrong number of arguments / not callable)", c.Src, out)
+		}
+		return
+	}
 	if out.Failed() || out.S != c.Want {
 		t.Fail("resolve:tag-bound", "%s renders %s, want %q", c.Src, out, c.Want)
 	}
@@ -787,9 +805,15 @@ func (c *TagBoundCase) Exec(t *eng.T) {
 
 type ShadowCase struct {
 	Mask int `json:"mask"` // bit0 globals, bit1 context, bit2 tag scope (with), bit3 tag scope (set)
+	// for the omitted macro parameter (bit4): the scope that defines and calls the macro binds the name as well
+	// (1 = set, 2 = with), and the parameter may have a default
+	Outer   int  `json:"outer,omitempty"`
+	Default bool `json:"default,omitempty"`
 }
 
-func (c *ShadowCase) ID() string { return fmt.Sprintf("shadow mask=%04b", c.Mask) }
+func (c *ShadowCase) ID() string {
+	return fmt.Sprintf("shadow mask=%04b outer=%d default=%v", c.Mask, c.Outer, c.Default)
+}
 
 func (c *ShadowCase) Exec(t *eng.T) {
 	t.Nontrivial()
@@ -821,14 +845,26 @@ func (c *ShadowCase) Exec(t *eng.T) {
 	}
 	if c.Mask&16 != 0 {
 		// the name is a macro parameter the caller omits: inside the macro it is empty, whatever the context holds
-		src = "{% macro mm(x) %}[" + src + "]{% endmacro %}{{ mm() }}"
+		param := "x"
 		want = "[]"
+		if c.Default {
+			param, want = "x=d", "[D]"
+		}
+		src = "{% macro mm(" + param + ") %}[" + src + "]{% endmacro %}{{ mm() }}"
 		if c.Mask&8 != 0 {
 			want = "[S]"
 		} else if c.Mask&4 != 0 {
 			want = "[W]"
 		}
+		switch c.Outer {
+		case 1:
+			src = "{% set x = o %}" + src
+		case 2:
+			src = "{% with x=o %}" + src + "{% endwith %}"
+		}
 	}
+	ctx["o"] = map[string]any{"v": "O"}
+	ctx["d"] = map[string]any{"v": "D"}
 	ctx["y"] = map[string]any{"v": "S"}
 	ctx["z"] = map[string]any{"v": "W"}
 	out := px.RenderIn(set, src, ctx)
@@ -855,7 +891,7 @@ func stepsFor() []Step {
 
 func finalSubs() []Step {
 	return []Step{
-		{Kind: "sub-str", S: "a"}, {Kind: "sub-str", S: "k"}, {Kind: "sub-str", S: "zz"}, {Kind: "sub-str", S: "Name"}, {Kind: "sub-str", S: "secret"},
+		{Kind: "sub-str", S: "a"}, {Kind: "sub-str", S: "k"}, {Kind: "sub-str", S: "zz"}, {Kind: "sub-str", S: "Name"}, {Kind: "sub-str", S: "secret"}, {Kind: "sub-str", S: "Size"}, {Kind: "sub-str", S: "Upper"}, {Kind: "sub-str", S: "Fetch"},
 		{Kind: "sub-int", I: 0}, {Kind: "sub-int", I: 1}, {Kind: "sub-int", I: 9},
 		{Kind: "sub-var", S: "k"}, {Kind: "sub-var", S: "ki"}, {Kind: "sub-var", S: "nilv"}, {Kind: "sub-var", S: "kbad"}, {Kind: "sub-var", S: "missing"},
 	}
@@ -880,7 +916,7 @@ func run(r *eng.Runner) {
 	if !r.Quick() {
 		depth = 3
 	}
-	r.Group("paths", "c08.case", fmt.Sprintf("every path of <=%d dot steps (43 step forms: valid and invalid keys, fields, unexported fields, methods, indices) from 22 context roots (struct pointer and value, maps with string, int, any and named-string keys, a named map type, slices, arrays, strings, scalars, nil, funcs of every accepted signature, *Value), optionally ending in one of 13 subscript forms, x 3 sinks", depth))
+	r.Group("paths", "c08.case", fmt.Sprintf("every path of <=%d dot steps (43 step forms: valid and invalid keys, fields, unexported fields, methods, indices) from 22 context roots (struct pointer and value, maps with string, int, any and named-string keys, a named map type, slices, arrays, strings, scalars, nil, funcs of every accepted signature, *Value), optionally ending in one of 16 subscript forms (string subscripts that are also method names of the value included), x 3 sinks", depth))
 	var rec func(first string, path []Step)
 	emit := func(first string, path []Step) {
 		for _, sk := range sinks {
@@ -946,7 +982,7 @@ func run(r *eng.Runner) {
 		}
 	}
 
-	r.Group("tag-bound", "c08.tagbound", "with pairs that exchange or chain names of the surrounding scope (new and old style), for/set/macro bindings used in paths; subscripts whose key is a pointer to a number")
+	r.Group("tag-bound", "c08.tagbound", "with pairs that exchange or chain names of the surrounding scope (new and old style), for/set/macro bindings used in paths; subscripts whose key is a pointer to a number; typed nil pointers, maps and slices as arguments of functions whose parameter has exactly that type")
 	for _, tb := range []TagBoundCase{
 		{`{% with x=y y=x %}{{ x.v }}/{{ y.v }}{% endwith %}|{{ x.v }}/{{ y.v }}`, "Y/X|X/Y"},
 		{`{% with x=y y=z z=x %}{{ x.v }}{{ y.v }}{{ z.v }}{% endwith %}`, "YZX"},
@@ -957,13 +993,26 @@ func run(r *eng.Runner) {
 		{`{% macro m(x, y) %}{% with x=y y=x %}{{ x }}{{ y }}{% endwith %}{% endmacro %}{{ m("1", "2") }}`, "21"},
 		{`{{ l[pk] }}|{{ l[pk8] }}|{{ arr[pk] }}|{{ l[pk]|upper }}`, "l1|l2|11|L1"},
 		{`{% with k=pk %}{{ l[k] }}{% endwith %}{% set j = pk8 %}{{ arr[j] }}`, "l112"},
+		{`{{ fnil(lp) }}|{{ fnil(np) }}|{% with q=np %}{{ fnil(q) }}{% endwith %}`, "L|nil-leaf|nil-leaf"},
+		{`{{ fmapn(nm) }}|{{ fsln(ns) }}|{{ fvar(lp, np) }}|{{ fany(missing) }}`, "0|0|2|true"},
+		// an argument list written after an argument list is not more arguments for the first call
+		{`{{ add2(1)(2) }}`, "ERROR"}, {`{{ add2(1, 2) }}`, "3"}, {`{{ one(1)(2) }}`, "ERROR"}, {`{{ add2()(1, 2) }}`, "ERROR"}, {`{{ fvar()(lp) }}`, "ERROR"},
 	} {
 		tb := tb
 		r.Do(&tb)
 	}
-	r.Group("shadowing", "c08.shadow", "the same name in globals / caller context / tag scope (with) / tag scope (set) / an omitted macro parameter: all 32 presence combinations")
+	r.Group("shadowing", "c08.shadow", "the same name in globals / caller context / tag scope (with) / tag scope (set) / an omitted macro parameter (with and without a default, with the name also bound by set / with in the scope that defines and calls the macro): all presence combinations")
 	for m := 0; m < 32; m++ {
 		r.Do(&ShadowCase{Mask: m})
+		if m&16 != 0 {
+			for outer := 0; outer <= 2; outer++ {
+				for _, d := range []bool{false, true} {
+					if outer != 0 || d {
+						r.Do(&ShadowCase{Mask: m, Outer: outer, Default: d})
+					}
+				}
+			}
+		}
 	}
 	_ = sort.Strings
 }
